@@ -77,7 +77,8 @@ def check_case(acc, sch, w, mod, tname, tags, mode, v, history=True):
                 acc.count('single_order_encodes_before_the_pair')
             except Exception:  # noqa - unset bytes default (C01's recorded finding)
                 pass
-        pyrt.build(m, sch, tname, v)
+        # every other case is built with the fewest operations: what equals its default is never touched (nor read)
+        pyrt.build(m, sch, tname, v, sparse=(acc.p['evaluations'] % 2 == 1))
         le = m.encode('<')
         be = m.encode('>')
     except Exception as e:  # noqa - C01 owns encode failures
@@ -149,8 +150,8 @@ def run_shard(spec):
                     check_case(acc, sch, w, mod, n, ['replay'], ex.get('mode'), C.unjson(ex['value']))
                     continue
                 for mode, v in V.value_set(sch, w, n, rng, nrand=spec['nrand'], aligned_greedy=False):
-                    if mode == 'default':
-                        continue  # all-zero values say nothing about byte order
+                    if mode == 'default' and not any(w.encode(n, v, '<')[0]):
+                        continue  # all-zero values say nothing about byte order (defaults with non-zero enumerators do)
                     check_case(acc, sch, w, mod, n, tagmap[n], mode, v)
     return acc.done()
 
